@@ -3210,7 +3210,21 @@ func (r *Resolver) verifyDNSSEC(ctx context.Context, signer, signed string, resp
 		return false, nil
 	}
 
-	if ok, err = dnssec.VerifyRRSIGWithWork(signer, keys, resp, r.dnssecWork(ctx)); err != nil {
+	if msg == resp {
+		// resp is the signer's own apex DNSKEY RRset: only a signature of a
+		// key the parent's DS RRset refers to authenticates it (RFC 4035
+		// §5.2). Accepting a signature of any key in the RRset would let an
+		// on-path attacker add a key, sign the RRset with it, and then sign
+		// anything in the zone.
+		var apexKeys map[uint16][]*dns.DNSKEY
+		if apexKeys, err = dnssec.DSAuthenticatedKeysWithWork(keys, parentdsRR, r.dnssecWork(ctx)); err != nil {
+			return false, err
+		}
+		ok, err = dnssec.VerifyApexDNSKEYWithWork(signer, keys, apexKeys, resp, r.dnssecWork(ctx))
+	} else {
+		ok, err = dnssec.VerifyRRSIGWithWork(signer, keys, resp, r.dnssecWork(ctx))
+	}
+	if err != nil {
 		return
 	}
 
